@@ -231,7 +231,7 @@ Definition mk (p : parser) (h : bytes) (a : list (N * pval)) (nx : parser) (need
 Definition eth_layer (dst src et : N) : layer :=
   mk PEthernet (enc_be 6 dst ++ enc_be 6 src ++ enc_be 2 et) [(cSrcMac, VI src); (cDstMac, VI dst); (cEtype, VI et)] (next_etype et) false.
 Definition vlan_layer (v et : N) : layer :=
-  mk PDot1Q (enc_be 2 v ++ enc_be 2 et) [(cVlanId, VI (v mod 4096)); (cEtype, VI et)] (next_etype et) false.
+  mk PDot1Q (enc_be 2 v ++ enc_be 2 et) [(cVlanId, VI v); (cEtype, VI et)] (next_etype et) false.
 Definition mpls_layer (ls : list (N * N)) (e : N) : layer :=
   mk PMPLS (enc_mpls ls) [(cEtype, VI e); (cMplsLabel, VLI (map fst ls)); (cMplsTtl, VLI (map snd ls))] (next_etype e) false.
 Definition ip4_layer (h : ip4) (next tl : N) : layer := mk PIPv4 (ip4_hdr h next tl) (ip4_assign h next) (next_proto next) false.
@@ -516,7 +516,7 @@ Ltac lookups :=
 
 Lemma vlan_run : forall vs final b ls, l3ish final ->
   exists bV, run_layers false b ls (vlan_chain vs final) = Some (false, bV, ls ++ map (fun _ => (PDot1Q, 4)) vs) /\
-             others_eq bV (match rev vs with v :: _ => msetI (msetI b cVlanId (v mod 4096)) cEtype final | [] => b end).
+             others_eq bV (match rev vs with v :: _ => msetI (msetI b cVlanId v) cEtype final | [] => b end).
 Proof.
   induction vs as [|v r IH]; intros final b ls Hf.
   - exists b. cbn [vlan_chain run_layers map rev]. rewrite app_nil_r. split; [reflexivity|apply others_eq_refl].
@@ -525,7 +525,7 @@ Proof.
     assert (E : encap_next false PDot1Q (next_etype (head_et r final)) = false).
     { destruct r; cbn [head_et]; [destruct Hf as [->|[->| ->]]; reflexivity|reflexivity]. }
     rewrite E.
-    destruct (IH final (assign [(cVlanId, VI (v mod 4096)); (cEtype, VI (head_et r final))] b) (ls ++ [(PDot1Q, 4)]) Hf) as (bV & R & O).
+    destruct (IH final (assign [(cVlanId, VI v); (cEtype, VI (head_et r final))] b) (ls ++ [(PDot1Q, 4)]) Hf) as (bV & R & O).
     exists bV. split; [rewrite R; cbn [map]; rewrite <- app_assoc; reflexivity|].
     eapply others_eq_trans; [exact O|]. cbn [rev].
     destruct r as [|v' r']; [cbn [rev app head_et]; apply others_eq_refl|].
@@ -542,7 +542,7 @@ Definition front_chain (f : frame) : list layer :=
 
 Definition pre_front (f : frame) : msg :=
   let m := msetI (msetI (msetI empty_msg cSrcMac (fSrc f)) cDstMac (fDst f)) cEtype (l3_etype (fOuter f)) in
-  let m := match rev (fVlans f) with v :: _ => msetI m cVlanId (v mod 4096) | [] => m end in
+  let m := match rev (fVlans f) with v :: _ => msetI m cVlanId v | [] => m end in
   match fMpls f with
   | [] => m
   | ls => mset (mset m cMplsLabel (VLI (map fst ls))) cMplsTtl (VLI (map snd ls))
@@ -585,8 +585,16 @@ Proof.
     unfold mpls_chain, after_et, last_next. destruct (fMpls f); cbn; apply next_etype_l3.
 Qed.
 
+(* VLAN tags: the property quantifies over tags whose priority and DEI bits are 0, i.e. tag control words below 4096
+   (the dissector reports the whole tag control word as vlan_id) *)
+Lemma vlans_small vs : forallb (fun v => v <? 4096) vs = true -> forallb (fun v => v <? 65536) vs = true.
+Proof.
+  induction vs as [|v r IH]; cbn [forallb]; [reflexivity|]. intros H. apply andb_prop in H. destruct H as [H1 H2].
+  apply N.ltb_lt in H1. rewrite IH by exact H2. replace (v <? 65536) with true by (symmetry; apply N.ltb_lt; lia). reflexivity.
+Qed.
+
 Definition wf_front (f : frame) : bool :=
-  (fDst f <? 281474976710656) && (fSrc f <? 281474976710656) && forallb (fun v => v <? 65536) (fVlans f) &&
+  (fDst f <? 281474976710656) && (fSrc f <? 281474976710656) && forallb (fun v => v <? 4096) (fVlans f) &&
   forallb wf_label (fMpls f) && (lenN (fMpls f) <=? 1000).
 
 Lemma after_et_small f : after_et f < 65536 /\ l3ish (after_et f).
@@ -612,7 +620,7 @@ Proof.
   destruct (after_et_small f) as [Ha _].
   unfold front_chain. cbn [contracts]. split.
   - apply robust_p; intros r; apply eth_layer_contract; try assumption. destruct (fVlans f); cbn [head_et]; [exact Ha|lia].
-  - apply contracts_app. split; [apply vlan_contracts; assumption|].
+  - apply contracts_app. split; [apply vlan_contracts; [apply vlans_small|]; assumption|].
     unfold mpls_chain. destruct (fMpls f) as [|x ls] eqn:Em; cbn [contracts]; [exact I|]. split; [|exact I].
     cbn [map concat app]. intros rest' Hp'. unfold contract. cbn [mpls_layer mk lp lhdr lasg lnext lneeds].
     rewrite mpls_lenN. split; [keys|]. split; [discriminate|]. split; [unfold lenN in *; cbn [length] in *; lia|].
@@ -1012,7 +1020,7 @@ Qed.
    message that already carries the sample's own fields; the record is padded to 4 bytes) *)
 Definition pre_front_on (b : msg) (f : frame) : msg :=
   let m := msetI (msetI (msetI b cSrcMac (fSrc f)) cDstMac (fDst f)) cEtype (l3_etype (fOuter f)) in
-  let m := match rev (fVlans f) with v :: _ => msetI m cVlanId (v mod 4096) | [] => m end in
+  let m := match rev (fVlans f) with v :: _ => msetI m cVlanId v | [] => m end in
   match fMpls f with
   | [] => m
   | ls => mset (mset m cMplsLabel (VLI (map fst ls))) cMplsTtl (VLI (map snd ls))
